@@ -115,6 +115,8 @@ type World struct {
 	LastCommitted int64 // height of the last block the main node committed
 	KeepDisks bool
 	DupKinds map[string]bool
+	AfterCommit func() // called right after every Commit of the main node
+	Cleanup  []func()  // run by Close (temporary directories etc.)
 	DiskAt   map[int64]*simdb.Disk // copy of the main node's disk after each commit (KeepDisks)
 	ReqLog   []BlockReq // executed block requests (for twins)
 	ResLog   []BlockRes
@@ -336,6 +338,9 @@ func (w *World) Step(bo *BlockOp) bool {
 		b.Res.Phase = "Commit"
 		return fail(cerr)
 	}
+	if w.AfterCommit != nil {
+		w.AfterCommit()
+	}
 	b.Res.Hash = hash
 	b.Res.Phase = "done"
 	if string(hash) != string(w.lastHash) {
@@ -422,6 +427,10 @@ func (w *World) Close() {
 	if w.Node != nil {
 		w.Node.Release()
 	}
+	for _, f := range w.Cleanup {
+		f()
+	}
+	w.Cleanup = nil
 }
 
 func trimStack(s string) string {
